@@ -501,3 +501,158 @@ Proof.
   - symmetry. apply run_fuel_independent; assumption.
   - apply run_fuel_independent; assumption.
 Qed.
+
+(* ---------------------------------------------------------------- contexts, with a larger loop bound on the right *)
+Section CtxK.
+Variable structs : structs_t.
+Variables callf callf' : nat -> list value -> list line -> res (value * list value).
+Hypothesis Hc : cle callf callf'.
+
+Lemma for_rel_k x t incl lo lo' hi hi' st st' body body' :
+  (forall en out, rle (eval structs callf lo en out) (eval structs callf' lo' en out)) ->
+  (forall en out, rle (eval structs callf hi en out) (eval structs callf' hi' en out)) ->
+  (forall en out, rle (eval structs callf st en out) (eval structs callf' st' en out)) ->
+  (forall k k' en out, k <= k' -> rle (exec structs callf k body en out) (exec structs callf' k' body' en out)) ->
+  forall k k' en out, k <= k' ->
+    rle (exec structs callf k (SFor x t lo hi incl st body) en out)
+        (exec structs callf' k' (SFor x t lo' hi' incl st' body') en out).
+Proof.
+  intros Hlo Hhi Hst Hb k k' en out Hk. cbn.
+  apply rle_bind; [apply Hlo|]. intros rlo o1.
+  apply rle_bind; [apply Hhi|]. intros rhi o2.
+  apply rle_bind; [apply Hst|]. intros rst o3.
+  destruct (fst rlo); try apply rle_refl. destruct (fst rhi); try apply rle_refl. destruct (fst rst); try apply rle_refl.
+  generalize (snd rst) as en1. generalize v as i.
+  generalize Hk. generalize k at 1 3 as n0. generalize k' at 1 3 as n0'.
+  intros n0' n0 Hn0. revert o3 n0' Hn0.
+  induction n0 as [|n IHn]; intros o3 n0' Hn0 i en1; [left; reflexivity|].
+  destruct n0' as [|n']; [inversion Hn0|]. apply le_S_n in Hn0.
+  destruct (for_cond incl v1 i v0); [|apply rle_refl].
+  apply rle_bind; [apply Hb; assumption|]. intros r out''. destruct (snd r); try apply rle_refl; apply IHn; assumption.
+Qed.
+
+Section S.
+Variables s s' : stmt.
+Variables e e' : expr.
+Hypothesis Hs : forall k k' en out, k <= k' -> rle (exec structs callf k s en out) (exec structs callf' k' s' en out).
+Hypothesis He : forall en out, rle (eval structs callf e en out) (eval structs callf' e' en out).
+
+Lemma exec_ctx_k : forall K k k' en out, k <= k' ->
+  rle (exec structs callf k (splug K s e) en out) (exec structs callf' k' (splug K s' e') en out).
+Proof.
+  pose proof (eval_mono structs callf callf' Hc) as Em.
+  pose proof (exec_mono_k structs callf callf' Hc) as Sm.
+  induction K as [|x t|x|x f|a b|body|x t hi incl step body|x t lo incl step body|x t lo hi incl body| |pre post|
+                  |K IH b|a K IH|c K IH b|c a K IH|c K IH|x t lo hi incl step K IH|K IH];
+    intros k k' en out Hk; cbn [splug].
+  - apply Hs; assumption.
+  - cbn. mono He.
+  - cbn. mono He.
+  - cbn. mono He.
+  - cbn. apply rle_bind; [apply He|]. intros rc out'.
+    destruct (fst rc) as [| [|] | | |]; try apply rle_refl; (apply rle_bind; [apply Sm; assumption|intros; apply rle_refl]).
+  - cbn. generalize Hk. generalize k at 1 3 as n0. generalize k' at 1 3 as n0'.
+    intros n0' n0 Hn0. revert en out n0' Hn0.
+    induction n0 as [|n IHn]; intros en out n0' Hn0; [left; reflexivity|].
+    destruct n0' as [|n']; [inversion Hn0|]. apply le_S_n in Hn0.
+    apply rle_bind; [apply He|]. intros rc out'.
+    destruct (fst rc) as [| [|] | | |]; try apply rle_refl.
+    apply rle_bind; [apply Sm; assumption|]. intros r out''. destruct (snd r); try apply rle_refl; apply IHn; assumption.
+  - apply for_rel_k; [apply He|apply Em|apply Em|intros; apply Sm; assumption|assumption].
+  - apply for_rel_k; [apply Em|apply He|apply Em|intros; apply Sm; assumption|assumption].
+  - apply for_rel_k; [apply Em|apply Em|apply He|intros; apply Sm; assumption|assumption].
+  - cbn. mono He.
+  - cbn. generalize (@nil item) as acc. revert en out.
+    induction pre as [|e1 r IHr]; intros en out acc; cbn [app].
+    + apply rle_bind; [apply He|]. intros r1 o1. destruct (item_of (fst r1)); [|apply rle_refl].
+      generalize (i :: acc) as acc1. generalize (snd r1) as en1. revert o1.
+      induction post as [|e2 r2 IHp]; intros o1 en1 acc1; [apply rle_refl|].
+      apply rle_bind; [apply Em|]. intros r2' o2. destruct (item_of (fst r2')); [apply IHp|apply rle_refl].
+    + apply rle_bind; [apply Em|]. intros r1 o1. destruct (item_of (fst r1)); [apply IHr|apply rle_refl].
+  - cbn. mono He.
+  - cbn. apply rle_bind; [apply IH; assumption|]. intros [en' fl] out'. destruct fl; try apply rle_refl. apply Sm; assumption.
+  - cbn. apply rle_bind; [apply Sm; assumption|]. intros [en' fl] out'. destruct fl; try apply rle_refl. apply IH; assumption.
+  - cbn. apply rle_bind; [apply Em|]. intros rc out'.
+    destruct (fst rc) as [| [|] | | |]; try apply rle_refl;
+      (apply rle_bind; [solve [apply IH; assumption | apply Sm; assumption]|intros; apply rle_refl]).
+  - cbn. apply rle_bind; [apply Em|]. intros rc out'.
+    destruct (fst rc) as [| [|] | | |]; try apply rle_refl;
+      (apply rle_bind; [solve [apply IH; assumption | apply Sm; assumption]|intros; apply rle_refl]).
+  - cbn. generalize Hk. generalize k at 1 3 as n0. generalize k' at 1 3 as n0'.
+    intros n0' n0 Hn0. revert en out n0' Hn0.
+    induction n0 as [|n IHn]; intros en out n0' Hn0; [left; reflexivity|].
+    destruct n0' as [|n']; [inversion Hn0|]. apply le_S_n in Hn0.
+    apply rle_bind; [apply Em|]. intros rc out'.
+    destruct (fst rc) as [| [|] | | |]; try apply rle_refl.
+    apply rle_bind; [apply IH; assumption|]. intros r out''. destruct (snd r); try apply rle_refl; apply IHn; assumption.
+  - apply for_rel_k; [apply Em|apply Em|apply Em|intros; apply IH; assumption|assumption].
+  - cbn. apply rle_bind; [apply IH; assumption|intros; apply rle_refl].
+Qed.
+End S.
+End CtxK.
+
+Section ProgOff.
+Variable structs : structs_t.
+
+(* two programs differing in the body of f; the right one is given one more unit of fuel *)
+Lemma prog_refine_off p1 p2 f fd1 fd2 :
+  (forall g, g <> f -> nth_error p1 g = nth_error p2 g) ->
+  nth_error p1 f = Some fd1 -> nth_error p2 f = Some fd2 -> fparams fd1 = fparams fd2 ->
+  (forall fuel, cle (call structs p1 fuel) (call structs p2 (S fuel)) ->
+     forall k k' en out, k <= k' -> rle (exec structs (call structs p1 fuel) k (fbody fd1) en out)
+                                          (exec structs (call structs p2 (S fuel)) k' (fbody fd2) en out)) ->
+  forall fuel, cle (call structs p1 fuel) (call structs p2 (S fuel)).
+Proof.
+  intros Hother H1 H2 Hp Hbody. induction fuel as [|fuel IH]; intros g vs out; [left; reflexivity|].
+  cbn [call]. destruct (Nat.eq_dec g f) as [->|Hne].
+  - rewrite H1, H2, Hp. destruct (bind_params (fparams fd2) vs); [|apply rle_refl].
+    apply rle_bind; [apply Hbody; [apply IH|auto]|intros; apply rle_refl].
+  - rewrite (Hother g Hne). destruct (nth_error p2 g); [|apply rle_refl].
+    destruct (bind_params (fparams f0) vs); [|apply rle_refl].
+    apply rle_bind; [apply exec_mono_k; [apply IH|auto]|intros; apply rle_refl].
+Qed.
+
+(* the converse of lit_call_program: whenever the program with the literal finishes with fuel n, the program with the
+   call finishes with fuel n + 1 and the same outcome *)
+Theorem lit_call_program_conv p f fd g t z K s C :
+  nth_error p f = Some fd -> g <> f ->
+  nth_error p g = Some {| fparams := []; fret := TInt t; fbody := SReturn (Some (ELit t z)) |} ->
+  forall fuel, run structs (upd_body p f (splug K s (eplug C (ELit t z)))) fuel <> OutOfFuel ->
+               run structs (upd_body p f (splug K s (eplug C (ECall g [])))) (S fuel) =
+               run structs (upd_body p f (splug K s (eplug C (ELit t z)))) fuel.
+Proof.
+  intros Hf Hgf Hg fuel Hrun.
+  set (p1 := upd_body p f (splug K s (eplug C (ECall g [])))).
+  set (p2 := upd_body p f (splug K s (eplug C (ELit t z)))) in *.
+  assert (H21 : cle (call structs p2 fuel) (call structs p1 (S fuel))).
+  { eapply prog_refine_off with (f := f).
+    - intros g0 Hg0. unfold p1, p2. rewrite !upd_body_other by assumption. reflexivity.
+    - apply upd_body_same; eassumption.
+    - apply upd_body_same; eassumption.
+    - reflexivity.
+    - cbn [fbody]. intros fu Hcle k k' en out Hk.
+      apply exec_ctx_k; [assumption|intros; apply exec_mono_k; assumption| |assumption].
+      intros en0 out0. apply eval_ctx; [assumption|]. intros en1 out1.
+      right. symmetry. transitivity (eval structs (call structs p1 (S fu)) (ELit t z) en1 out1); [|reflexivity].
+      apply lit_call_local with (fin := []). apply const_fn_returns.
+      unfold p1. rewrite upd_body_other by assumption. exact Hg. }
+  assert (Hl : length p2 = length p1) by (unfold p1, p2; rewrite !upd_body_length; reflexivity).
+  unfold run in *. rewrite Hl in *.
+  destruct (H21 (length p1 - 1) [] []) as [E|E].
+  - rewrite E in Hrun. contradiction.
+  - rewrite E. reflexivity.
+Qed.
+
+(* both directions together: the two programs have the same finished outcomes *)
+Theorem lit_call_program_equiv p f fd g t z K s C :
+  nth_error p f = Some fd -> g <> f ->
+  nth_error p g = Some {| fparams := []; fret := TInt t; fbody := SReturn (Some (ELit t z)) |} ->
+  forall r, r <> OutOfFuel ->
+    ((exists fuel, run structs (upd_body p f (splug K s (eplug C (ECall g [])))) fuel = r) <->
+     (exists fuel, run structs (upd_body p f (splug K s (eplug C (ELit t z)))) fuel = r)).
+Proof.
+  intros Hf Hgf Hg r Hr. split; intros [fuel E].
+  - exists fuel. rewrite (lit_call_program structs p f fd g t z K s C Hf Hgf Hg fuel); [exact E|]. rewrite E. exact Hr.
+  - exists (S fuel). rewrite (lit_call_program_conv p f fd g t z K s C Hf Hgf Hg fuel); [exact E|]. rewrite E. exact Hr.
+Qed.
+End ProgOff.
